@@ -18,12 +18,12 @@ LEVEL = "exploration"
 CASES = {"quick": 640, "thorough": 16000}
 BUDGET = {"quick": 60, "thorough": 1200}
 CASE_TIMEOUT = 60
-FLOORS = {"quick": {"nontrivial": 300, "max_skip_frac": 0.15,
+FLOORS = {"quick": {"nontrivial": 300, "max_skip_frac": 0.2,
                     "tags": {"estimate_ok": 300, "mode:inj": 80, "mode:tree": 80, "mode:mixed": 80, "i_meas": 150, "t3_meas": 100,
                              "fused_buses": 120, "init:results": 60, "init:flat": 250, "alg:irwls": 40,
                              "zero_injection:zero_pwr_bus": 50, "zero_inj_unmeasured": 15, "multi_island": 10, "red:1.0": 80, "truth_start": 60},
                     "extras": {"chi2_tests": 80, "rn_max_tests": 35}},
-          "thorough": {"nontrivial": 8000, "max_skip_frac": 0.15,
+          "thorough": {"nontrivial": 8000, "max_skip_frac": 0.2,
                        "tags": {"estimate_ok": 8000, "mode:inj": 2000, "mode:tree": 2000, "mode:mixed": 2000, "i_meas": 4000,
                                 "t3_meas": 2500, "fused_buses": 3000, "init:results": 1500, "alg:irwls": 1000,
                                 "zero_injection:zero_pwr_bus": 1200, "zero_inj_unmeasured": 400, "multi_island": 250, "truth_start": 1500},
